@@ -12,6 +12,7 @@ import (
 	"crypto/sha256"
 	"fmt"
 	"io"
+	"strings"
 	"sync"
 	"testing"
 
@@ -132,9 +133,87 @@ func cryptoCalls(id int) error {
 	return nil
 }
 
+// framedMessages: separate messages under separate keys that sit back to back
+// in ONE receive buffer (each ciphertext slice has the next frame as spare
+// capacity) are decrypted by separate goroutines at the same time, with every
+// symmetric AEAD / CBC algorithm; each must decrypt as it does alone and the
+// frames must be left as they were.
+func framedMessages(round int) error {
+	algs := []struct {
+		name  string
+		key   int
+		nonce int
+	}{{"A256GCM", 32, 12}, {"C20P", 32, 12}, {"XC20P", 32, 24}, {"A128CBC-HS256", 32, 16}, {"A256CBC", 32, 16}}
+	for _, a := range algs {
+		const n = 3
+		type frame struct {
+			key        jwk.Key
+			nonce, tag []byte
+			off, ln    int
+			msg        []byte
+		}
+		var frames []frame
+		var buf []byte
+		for i := 0; i < n; i++ {
+			k, err := jwk.FromRaw(bytes.Repeat([]byte{byte(17*i + round + 1)}, a.key))
+			if err != nil {
+				return err
+			}
+			msg := bytes.Repeat([]byte{byte('A' + i)}, 32+16*i)
+			nonce := bytes.Repeat([]byte{byte(i + 1)}, a.nonce)
+			ct, tag, err := kitcrypto.EncryptSymmetric(msg, a.name, k, nonce, nil)
+			if err != nil {
+				return fmt.Errorf("%s encrypt: %w", a.name, err)
+			}
+			frames = append(frames, frame{k, nonce, tag, len(buf), len(ct), msg})
+			buf = append(buf, ct...)
+		}
+		buf = append(buf, make([]byte, 64)...) // room behind the last frame too
+		orig := append([]byte{}, buf...)
+		var wg sync.WaitGroup
+		errs := make([]error, n)
+		for i, f := range frames {
+			i, f := i, f
+			wg.Add(1)
+			go func() {
+				defer wg.Done()
+				pt, err := kitcrypto.DecryptSymmetric(buf[f.off:f.off+f.ln], a.name, f.key, f.nonce, f.tag, nil)
+				if err != nil {
+					errs[i] = fmt.Errorf("%s: frame %d of a shared receive buffer does not decrypt next to its neighbours: %w", a.name, i, err)
+				} else if !bytes.Equal(pt, f.msg) {
+					errs[i] = fmt.Errorf("%s: frame %d of a shared receive buffer decrypts to other bytes next to its neighbours", a.name, i)
+				}
+			}()
+		}
+		wg.Wait()
+		for _, e := range errs {
+			if e != nil {
+				return e
+			}
+		}
+		if !bytes.Equal(buf, orig) {
+			return fmt.Errorf("%s: decrypting the frames of a shared receive buffer changed the buffer", a.name)
+		}
+	}
+	return nil
+}
+
+// lineBuf is a goroutine's own log destination.
+type lineBuf struct {
+	mu sync.Mutex
+	b  bytes.Buffer
+}
+
+func (w *lineBuf) Write(p []byte) (int, error) {
+	w.mu.Lock()
+	defer w.mu.Unlock()
+	return w.b.Write(p)
+}
+func (w *lineBuf) String() string { w.mu.Lock(); defer w.mu.Unlock(); return w.b.String() }
+
 func TestCheck(t *testing.T) {
 	enumx.Main(t, "C08", "race-sampling", func(r *enumx.Run, replay *enumx.ReplayCase) {
-		r.Rule("SUPPLEMENTARY, sampling: independent enc/v1 pipelines (two ciphers, sizes around one segment), crypto calls with separate keys and messages (RSA-OAEP/PKCS1 encryption, PSS/PKCS1 signatures, AES-GCM), cron ParseStandard calls, logger look-ups and byte-slice-pool cycles run side by side on the real runtime in a -race build; every pipeline must still round-trip and the race detector must stay quiet. Not exhaustive and not the deciding step for C08.")
+		r.Rule("SUPPLEMENTARY, sampling: independent enc/v1 pipelines (two ciphers, sizes around one segment), crypto calls with separate keys and messages (RSA-OAEP/PKCS1 encryption, PSS/PKCS1 signatures, AES-GCM; separate messages framed back to back in one receive buffer and decrypted at the same time with GCM, ChaCha20-Poly1305, XChaCha20-Poly1305, CBC-HMAC, CBC), cron ParseStandard calls, logger look-ups (also of one brand-new name by several goroutines at once, each logging a line at once) and byte-slice-pool cycles run side by side on the real runtime in a -race build; every pipeline must still round-trip and the race detector must stay quiet. Not exhaustive and not the deciding step for C08.")
 		r.Assume("the Go race detector reports only races that actually occur in the sampled schedules")
 		rounds := 60
 		if r.Thorough() {
@@ -145,6 +224,7 @@ func TestCheck(t *testing.T) {
 		for round := 0; round < rounds && !r.Expired(); round++ {
 			var wg sync.WaitGroup
 			errs := make(chan error, 64)
+			roundBuf := &lineBuf{}
 			for g := 0; g < 8; g++ {
 				g := g
 				wg.Add(1)
@@ -157,6 +237,15 @@ func TestCheck(t *testing.T) {
 					}()
 					msg := bytes.Repeat([]byte{byte('a' + g)}, sizes[(g+round)%len(sizes)])
 					if err := pipeline(g, msg); err != nil {
+						errs <- err
+					}
+				}()
+			}
+			if round%4 == 1 {
+				wg.Add(1)
+				go func() {
+					defer wg.Done()
+					if err := framedMessages(round); err != nil {
 						errs <- err
 					}
 				}()
@@ -190,12 +279,35 @@ func TestCheck(t *testing.T) {
 					if l1 != l2 {
 						errs <- fmt.Errorf("two look-ups of one logger name gave different instances")
 					}
+					// four goroutines ask for one brand-new name at once and log through it
+					// right away: every line has the fields a logger's lines have alone
+					var lb lineBuf
+					fresh := logger.NewLogger(fmt.Sprintf("fresh-%d-%d", round, g))
+					fresh.SetOutput(&lb)
+					shared := logger.NewLogger(fmt.Sprint("fresh-shared-", round))
+					shared.SetOutput(roundBuf)
+					shared.Info("line from goroutine ", g)
+					fresh.Info("own line of goroutine ", g)
+					for _, f := range []string{"scope=", "instance=", "ver=", "type=log"} {
+						if !strings.Contains(lb.String(), f) {
+							errs <- fmt.Errorf("a line logged through a logger just obtained from NewLogger lacks the %q field: %q", f, lb.String())
+							break
+						}
+					}
 					b := pools[g%2].Get(16)
 					b = append(b, byte(g))
 					pools[g%2].Put(b)
 				}()
 			}
 			wg.Wait()
+			for _, l := range strings.Split(strings.TrimSpace(roundBuf.String()), "\n") {
+				for _, f := range []string{"scope=", "instance=", "ver=", "type=log"} {
+					if l != "" && !strings.Contains(l, f) {
+						errs <- fmt.Errorf("a line logged through a logger that several goroutines obtained at once from NewLogger lacks the %q field: %q", f, l)
+						break
+					}
+				}
+			}
 			close(errs)
 			for err := range errs {
 				r.Violation("independent-operation-failed-in-parallel", err.Error(), map[string]any{"round": round})
